@@ -1,6 +1,6 @@
 CONSTANTS N = 1  D = 2  MaxExtra = 3
   ShapeIds = {"plain", "scaled", "bent", "onesided", "topsided", "flat", "nodefknot", "lowknot"}
-  Vals = {0, 1, 3}  Sparse = {FALSE, TRUE}
+  Vals = {0, 3}  Sparse = {FALSE, TRUE}
 INIT Init
 NEXT Next
 CONSTRAINT Emit
